@@ -84,6 +84,27 @@ class C20(Prop):
                 ops.append("dump")
             objs = [gen.enc_struct(gen.rand_object(rng))]
             out.append(Case("run", {"script": vlib.hx(src), "objs": ";".join(objs), "ops": ";".join(ops)}, "api-histories", note=src))
+        # a variable given with SetVariable is what the script reads (also when an object field has the same name), and GetVariable
+        # returns what the script last assigned - stated per name and value, not only against the model
+        for name in ["v", "Name", "Count", "total", "x9", "_u", "$a", "$v", "$Name"]:
+            for val in [1, 0, -7, 2.5, "s", "", True, False, [1, "a"], {"k": 1}, 70000]:
+                objs = "N" if rng.random() < 0.5 else gen.enc_struct(gen.rand_object(rng))
+                mode = rng.choice(["opt", "noopt"])
+                order = rng.choice([0, 1])
+                ops = ["setvar:%s:%s" % (vlib.hx(name), enc_value(val)), "prepare:" + mode] if order else ["prepare:" + mode, "setvar:%s:%s" % (vlib.hx(name), enc_value(val))]
+                ops += ["exec:0", "getvar:%s" % vlib.hx(name)]
+                c = Case("run", {"script": vlib.hx("return %s;" % name), "objs": objs, "ops": ";".join(ops)}, "set-then-read",
+                         expect={"o2.class": "ok", "o2.value": enc_value(val), "o3.get": enc_value(val)}, note="SetVariable(%s) then `return %s;`" % (name, name))
+                if name.startswith("$"):
+                    c.tags.add("dollar-name")
+                out.append(c)
+                if isinstance(val, int) and not isinstance(val, bool):
+                    ops = ["prepare:" + mode, "exec:0", "getvar:%s" % vlib.hx(name)]
+                    c = Case("run", {"script": vlib.hx("%s = %d; %s = %s + 1; return %s;" % (name, val, name, name, name)), "objs": objs, "ops": ";".join(ops)}, "assign-then-get",
+                             expect={"o1.class": "ok", "o1.value": enc_value(val + 1), "o2.get": enc_value(val + 1)}, note="`%s = %d; %s = %s + 1;` then GetVariable" % (name, val, name, name))
+                    if name.startswith("$"):
+                        c.tags.add("dollar-name")
+                    out.append(c)
         # a function registered again under the same name after a run: later runs call the new one
         for _ in range(40 if tier == "quick" else 400):
             f = rng.choice(["k", "u", "len", "h0"])
@@ -101,6 +122,9 @@ class C20(Prop):
                 f = gen.struct_case(rng, src, ["prepare:opt", op], objs=objs)
                 out.append(Case("run", f, "run-vs-execute", group=g, note=src))
         return out
+
+    def in_class(self, klass, case):
+        return klass == "dollar-name" and "dollar-name" in case.tags
 
     def judge(self, case, go, model):
         out = Prop.judge(self, case, go, model)
